@@ -31,6 +31,12 @@ def run(ctx):
             and s["order"][1][0] != s["order"][0][0]]
     for s in random.Random(ctx.seed + 2).sample(gaps, min(6 if ctx.quick else 40, len(gaps))):
         scs.append(dict(s, pauseAt=1, pauseMs=900))
+    # a wide window: one event whose records are separated by many complete events of other sequence numbers (far
+    # fewer than the reassembler's window of 1000 events)
+    for width in ((20, 60) if ctx.quick else (20, 60, 300, 900)):
+        shapes = [["S", "E", "P"]] + [["U"]] * width
+        order = [[1, "S"]] + [[k + 2, "U"] for k in range(width)] + [[1, "E"], [1, "P"]]
+        scs.append({"shapes": shapes, "order": order, "fault": {"kind": "none"}, "expect": {}})
     sp = ctx.path("scen.jsonl")
     with open(sp, "w") as f:
         for s in scs:
